@@ -28,8 +28,8 @@ theorem runChain_connected (chain : List Verdict) : ∀ i, Eff.connected ∈ run
 
 /-- a socket becomes connected only if every middleware of the chain accepted it -/
 theorem admission_gated (chain : List Verdict) (recovered useMw : Bool) (hx : (recovered && !useMw) = false)
-    (h : Eff.connected ∈ admit chain recovered useMw) : ∀ v ∈ chain, v = .accept := by
-  unfold admit at h
+    (h : Eff.connected ∈ admission chain recovered useMw) : ∀ v ∈ chain, v = .accept := by
+  unfold admission at h
   rw [hx] at h
   exact runChain_connected chain 0 h
 
@@ -46,8 +46,8 @@ theorem runChain_all_accept (chain : List Verdict) (h : ∀ v ∈ chain, v = .ac
 
 /-- when all accept: every middleware is called, in registration order, before anything else -/
 theorem called_in_order (chain : List Verdict) (h : ∀ v ∈ chain, v = .accept) :
-    admit chain false false = (List.range chain.length).map .mwCalled ++ admitted := by
-  simp only [admit, Bool.false_and, Bool.false_eq_true, ↓reduceIte]
+    admission chain false false = (List.range chain.length).map .mwCalled ++ admitted := by
+  simp only [admission, Bool.false_and, Bool.false_eq_true, ↓reduceIte]
   rw [runChain_all_accept chain h 0, List.range_eq_range']
 
 /-- the first rejection (at position k, after k accepting middlewares) stops the chain: the later
@@ -67,9 +67,9 @@ theorem first_rejection_stops (pre post : List Verdict) (d : Nat) (hpre : ∀ v 
     simp [List.range'_succ]
 
 theorem rejection_leaves_nothing (pre post : List Verdict) (d : Nat) (hpre : ∀ v ∈ pre, v = .accept) :
-    ∀ e ∈ admit (pre ++ .reject d :: post) false false, e ∉ admitted := by
+    ∀ e ∈ admission (pre ++ .reject d :: post) false false, e ∉ admitted := by
   intro e he
-  simp only [admit, Bool.false_and, Bool.false_eq_true, ↓reduceIte] at he
+  simp only [admission, Bool.false_and, Bool.false_eq_true, ↓reduceIte] at he
   rw [first_rejection_stops pre post d hpre 0] at he
   simp only [List.mem_append, List.mem_map, List.mem_cons, List.not_mem_nil, or_false] at he
   rcases he with ⟨k, _, rfl⟩ | rfl | rfl <;> simp [admitted]
@@ -110,7 +110,7 @@ theorem event_gated (chain : List Bool) : ∀ i,
         rw [← h.1] at this; cases this
 
 /-! non-vacuity -/
-example : admit [.accept, .reject 7, .accept] false false = [.mwCalled 0, .mwCalled 1, .leaveAll, .connectError 7] := by decide
-example : admit [.reject 1] true false = admitted := by decide
+example : admission [.accept, .reject 7, .accept] false false = [.mwCalled 0, .mwCalled 1, .leaveAll, .connectError 7] := by decide
+example : admission [.reject 1] true false = admitted := by decide
 
 end SioVerif.C12
